@@ -22,7 +22,11 @@ def c16(tier, seed):
     return cc.codec_check('C16', tier, seed, ['ber', 'der'], ['PREFIX'], ['enc', 'pre'], numerics='0')
 
 
-CHECKS = {'C01': c01, 'C03': c03, 'C16': c16}
+def c05(tier, seed):
+    return cc.codec_check('C05', tier, seed, ['per', 'uper'], ['PER'], ['enc', 'dec'], numerics='0')
+
+
+CHECKS = {'C05': c05, 'C01': c01, 'C03': c03, 'C16': c16}
 
 
 def setup():
